@@ -798,7 +798,7 @@ func runC04(c *Ctx) {
 	rt := 40 * time.Millisecond
 	nscen := 5
 	if c.Thorough {
-		nscen = 40
+		nscen = 150
 	}
 	for i := 0; i < nscen; i++ {
 		sp := scenSpec{Kind: c04Kinds[i%3], Seed: r.U64(), Compression: int([]ch.Compression{ch.CompressionDisabled, ch.CompressionLZ4, ch.CompressionZSTD}[r.Intn(3)]),
@@ -920,7 +920,7 @@ func runC10(c *Ctx) {
 	rt := 40 * time.Millisecond
 	nscen := 4
 	if c.Thorough {
-		nscen = 30
+		nscen = 90
 	}
 	for i := 0; i < nscen; i++ {
 		sp := scenSpec{Kind: c04Kinds[i%3], Seed: r.U64(), Compression: int([]ch.Compression{ch.CompressionDisabled, ch.CompressionLZ4, ch.CompressionZSTD}[r.Intn(3)]),
